@@ -84,6 +84,7 @@ OPTIONS_AFFECTING_CACHE: Final = (
         # These change which diagnostics are produced, or are already applied to the
         # rendered diagnostics that are stored in the cache and replayed on a warm run.
         "many_errors_threshold",
+        "reveal_verbose_types",
         "semantic_analysis_only",
         "show_absolute_path",
         "show_error_code_links",
